@@ -118,6 +118,55 @@ fn check_op(sop: &SOp, proto: &[u8], obs: &mut Obs) -> Verdict {
         if last.as_ref() != want.last() {
             return Err(format!("last() = {:?}, expected {:?}", last, want.last()));
         }
+        // consumers built on fold / try_fold / count / last after the iterator was advanced by hand
+        let tup = |c: Change<u32>| (c.tag(), c.old_index(), c.new_index(), c.value());
+        let j0 = proto.len() % (want.len() + 1);
+        for j in [0usize, 1, 2, j0] {
+            let j = j.min(want.len());
+            let advanced = || {
+                let mut it = op.iter_changes(&old[..], &new[..]);
+                for _ in 0..j {
+                    it.next();
+                }
+                it
+            };
+            let folded = advanced().fold(vec![], |mut v, c| {
+                v.push(tup(c));
+                v
+            });
+            if folded[..] != want[j..] {
+                return Err(format!("after {} next() calls, fold() yields {:?}, expected {:?}", j, folded, &want[j..]));
+            }
+            let mut each = vec![];
+            advanced().for_each(|c| each.push(tup(c)));
+            if each[..] != want[j..] {
+                return Err(format!("after {} next() calls, for_each() yields {:?}, expected {:?}", j, each, &want[j..]));
+            }
+            if advanced().count() != want.len() - j {
+                return Err(format!("after {} next() calls, count() = {}, expected {}", j, advanced().count(), want.len() - j));
+            }
+            let l = advanced().last().map(tup);
+            if l.as_ref() != want[j..].last() {
+                return Err(format!("after {} next() calls, last() = {:?}, expected {:?}", j, l, want[j..].last()));
+            }
+            let mut it = advanced();
+            let found = it.find(|c| c.tag() == ChangeTag::Insert).map(tup);
+            let want_found = want[j..].iter().find(|w| w.0 == ChangeTag::Insert).cloned();
+            if found != want_found {
+                return Err(format!("after {} next() calls, find(Insert) = {:?}, expected {:?}", j, found, want_found));
+            }
+            let skipped: Vec<_> = advanced().skip(1).map(tup).collect();
+            if skipped[..] != want[(j + 1).min(want.len())..] {
+                return Err(format!("after {} next() calls, skip(1) yields {:?}", j, skipped));
+            }
+            let mut pk = advanced().peekable();
+            let _ = pk.peek();
+            let mut peeked = vec![];
+            pk.for_each(|c| peeked.push(tup(c)));
+            if peeked[..] != want[j..] {
+                return Err(format!("after {} next() calls, a peeked Peekable drained with for_each yields {:?}, expected {:?}", j, peeked, &want[j..]));
+            }
+        }
         let stepped: Vec<_> = op.iter_changes(&old[..], &new[..]).step_by(2).map(|c: Change<u32>| (c.tag(), c.old_index(), c.new_index(), c.value())).collect();
         let want_stepped: Vec<_> = want.iter().step_by(2).cloned().collect();
         if stepped != want_stepped {
@@ -235,7 +284,17 @@ fn judge_text<'a, T: DiffableStr + ?Sized + std::fmt::Debug + 'a>(d: &'a TextDif
         with_empties.push(*op);
     }
     with_empties.push(DiffOp::Equal { old_index: d.old_slices().len(), new_index: d.new_slices().len(), len: 0 });
-    for ops in [only_changes, reversed, radius0, with_empties] {
+    // every Equal op turned into a Replace over the same ranges (a Replace whose two sides hold equal
+    // items): its expansion is all its deletes followed by all its inserts, like any Replace
+    let eq_as_replace: Vec<similar::DiffOp> = d
+        .ops()
+        .iter()
+        .map(|op| match *op {
+            DiffOp::Equal { old_index, new_index, len } => DiffOp::Replace { old_index, old_len: len, new_index, new_len: len },
+            o => o,
+        })
+        .collect();
+    for ops in [only_changes, reversed, radius0, with_empties, eq_as_replace] {
         let h = similar::udiff::UnifiedDiffHunk::new(ops.clone(), d, true);
         let got = flat(h.iter_changes());
         let mut want: Flat<T> = vec![];
@@ -317,7 +376,7 @@ impl Prop for C13 {
     type Case = Case;
     const ID: &'static str = "C13";
     fn rule() -> String {
-        "cases = Op(one op of any of the four kinds with arbitrary offsets/lengths, expanded against injectively valued sequences old[i]=i, new[j]=10^6+j so that any old/new or index mix-up changes a value) | Text(text diff, radius: whole-diff iteration and hunk iteration); enumeration of all ops with offsets and lengths in 0..4. Oracle: exact expected (tag, old_index, new_index, value) vector per kind; iter_slices items == item-wise expansion with 1 (Replace: 2) slices; a generated iterator-protocol script (mix of next()/nth(k)) walks the same expansion, size_hint brackets the remainder, count/last/step_by agree; iter_all_changes / UnifiedDiffHunk::iter_changes (hunks from iter_hunks and hunks built by hand from the changes only, from the reversed op list, from all radius-0 groups concatenated (zero-length Equal ops in the middle) and from the op list interleaved with zero-length ops of every kind) == concatenation of per-op expansions and every value is the token at its index; apply_to_hook(Capture) reproduces the op; as_tag_tuple ranges. Non-trivial = old_index != new_index and (Replace) old_len != new_len, or a text diff with >= 2 ops; distinct = distinct serialized case.".into()
+        "cases = Op(one op of any of the four kinds with arbitrary offsets/lengths, expanded against injectively valued sequences old[i]=i, new[j]=10^6+j so that any old/new or index mix-up changes a value) | Text(text diff, radius: whole-diff iteration and hunk iteration); enumeration of all ops with offsets and lengths in 0..4. Oracle: exact expected (tag, old_index, new_index, value) vector per kind; iter_slices items == item-wise expansion with 1 (Replace: 2) slices; a generated iterator-protocol script (mix of next()/nth(k)) walks the same expansion, size_hint brackets the remainder, count/last/step_by agree, and after 0, 1, 2 or j next() calls the fold-based consumers (fold, for_each, count, last, find, skip, a peeked Peekable) yield exactly the rest; iter_all_changes / UnifiedDiffHunk::iter_changes (hunks from iter_hunks and hunks built by hand from the changes only, from the reversed op list, from all radius-0 groups concatenated (zero-length Equal ops in the middle) from the op list interleaved with zero-length ops of every kind, and from the op list with every Equal turned into a Replace over the same ranges) == concatenation of per-op expansions and every value is the token at its index; apply_to_hook(Capture) reproduces the op; as_tag_tuple ranges. Non-trivial = old_index != new_index and (Replace) old_len != new_len, or a text diff with >= 2 ops; distinct = distinct serialized case.".into()
     }
     fn assumptions() -> Vec<String> {
         vec!["sequences are long enough for the op (in-bounds by construction)".into()]
